@@ -422,6 +422,12 @@ impl<'env> Context<'env> {
         let item = frame.current_loop.as_mut()?.next();
         if item.is_some() {
             frame.locals.clear();
+            // macros declared in this iteration get a fresh closure: the one
+            // of the previous iteration still holds that iteration's locals.
+            #[cfg(feature = "macros")]
+            {
+                frame.closure = None;
+            }
         }
         item
     }
